@@ -122,7 +122,7 @@ def run(check, prop, seed, jobs):
             def one(i):
                 cmd = prefix + ["--mode", mode, "--seed", str(seed * 1000 + i), "--iters", str(iters), "--max-n", str(max_n)]
                 try:
-                    p = subprocess.run(cmd, cwd=check.HARNESS, env=env, stdout=subprocess.PIPE, stderr=subprocess.PIPE, text=True, timeout=3600)
+                    p = subprocess.run(cmd, cwd=check.HARNESS, env=env, stdout=subprocess.PIPE, stderr=subprocess.PIPE, text=True, timeout=1800)
                     return p.stdout, p.stderr, p.returncode
                 except subprocess.TimeoutExpired:
                     return "", "timeout", -9
@@ -133,7 +133,7 @@ def run(check, prop, seed, jobs):
             nreports = 0
             for out, e, rc in results:
                 if rc == -9:
-                    inconclusive.append(f"{key}: watchdog (1h) fired")
+                    inconclusive.append(f"{key}: watchdog (30 min) fired")
                     continue
                 v, r, inc, execs = _classify(engine, mode, out, e, rc)
                 execs_total += execs
